@@ -4,6 +4,7 @@ import (
 	"encoding/base64"
 	"encoding/hex"
 	"fmt"
+	"github.com/nspcc-dev/neo-go/pkg/config"
 	"os"
 	"strings"
 	"sync"
@@ -400,10 +401,17 @@ func permSequences(t *testing.T, run *ev.Run, stage string) {
 	// manifest-only updates that move a method's entry into the middle of an
 	// instruction (the operand of the PUSHINT8 each callee method starts with) or
 	// past the end of the script: the update itself must fail, nothing may ever be
-	// executed from such an offset
+	// executed from such an offset. The instruction-boundary rule is part of the
+	// protocol from Basilisk on (chains before it accept such a manifest, and have
+	// to: it is frozen history); the range rule holds on every chain.
+	basilisk := config.HFBasilisk
 	for bi, shift := range []int{1, 2000} {
 		id := fmt.Sprintf("perm-seq/%s/manifest-update-with-method-offset-off-instruction-boundary/%d", stage, bi)
 		if !run.Want(id) {
+			continue
+		}
+		if shift == 1 && !bc.IsHardforkEnabled(&basilisk, bc.BlockHeight()+1) {
+			run.Obs("manifest_updates_with_method_offset_off_boundary_not_judged_before_Basilisk", 1)
 			continue
 		}
 		var meths []map[string]any
